@@ -228,12 +228,14 @@ Proof.
     + destruct (IH _ _ H) as [Hin Hok]. split; [right; exact Hin | exact Hok].
 Qed.
 
-Lemma consolidate_cases : forall rs pruned f,
-  consolidate rs pruned f = pruned \/ (In (consolidate rs pruned f) rs /\ e_ok (consolidate rs pruned f) <> OkTrue).
+Lemma consolidate_cases : forall rc rs pruned f,
+  consolidate rc rs pruned f = pruned \/
+  (exists r, In r rs /\ e_ok r <> OkTrue /\
+             consolidate rc rs pruned f = (if rc then mkEntry (grade_to_ok (e_grade r)) (e_grade r) (e_msg r) else r)).
 Proof.
-  intros rs pruned f. unfold consolidate.
+  intros rc rs pruned f. unfold consolidate.
   destruct (consolidate_loop (length rs =? 1)%nat f 0 rs) as [r|] eqn:E; [right | left; reflexivity].
-  eapply consolidate_loop_in. exact E.
+  apply consolidate_loop_in in E. destruct E as [Hin Hok]. exists r. repeat split; assumption.
 Qed.
 
 Section Leaves.
@@ -249,31 +251,40 @@ Section Leaves.
     - apply wf_zero.
   Qed.
 
-  (* FormulaGrader / NumericalGrader / MatrixGrader: standardize_cfn_return, scaling, consolidate_results *)
-  Lemma formula_leaf_wf : forall f a l, alt_okp S Zc a -> Forall cfn_unit l ->
-    (0 < alt_credit a \/ Forall cfn_crisp l) ->
-    wf_ires S (formula_response f (alt_credit a) (alt_msg a) (alt_ok a) l).
+  Lemma scale_raw_unit : forall c v, cfn_unit v -> 0 <= c <= 1 -> 0 <= e_grade (scale_raw c (standardize v)) <= 1.
+  Proof. intros c v Hv Hc. destruct v; simpl in *; nra. Qed.
+
+  (* FormulaGrader / NumericalGrader / MatrixGrader: standardize_cfn_return, scaling, consolidate_results.
+     rc = true is the repaired consolidate_results (ok re-derived from the scaled grade): no side condition then. *)
+  Lemma formula_leaf_wf : forall rc f a l, alt_okp S Zc a -> Forall cfn_unit l ->
+    (rc = true \/ 0 < alt_credit a \/ Forall cfn_crisp l) ->
+    wf_ires S (formula_response rc f (alt_credit a) (alt_msg a) (alt_ok a) l).
   Proof.
-    intros f a l Ha Hl Hside. unfold formula_response, wf_ires. simpl.
-    destruct (consolidate_cases (map (fun v => scale_raw (alt_credit a) (standardize v)) l)
-                                (mkEntry (alt_ok a) (alt_credit a) (alt_msg a)) f) as [E | [Hin Hok]].
+    intros rc f a l Ha Hl Hside. unfold formula_response, wf_ires. simpl.
+    destruct (consolidate_cases rc (map (fun v => scale_raw (alt_credit a) (standardize v)) l)
+                                (mkEntry (alt_ok a) (alt_credit a) (alt_msg a)) f) as [E | [r [Hin [Hok E]]]].
     - rewrite E. apply alt_triple_wf with (Zc := Zc). exact Ha.
-    - apply in_map_iff in Hin. destruct Hin as [v [Ev Hv]]. rewrite <- Ev in *.
-      apply strict_wf. rewrite Forall_forall in Hl. apply scale_raw_failing_strict.
-      + apply Hl. exact Hv.
-      + apply alt_credit_unit with (S := S) (Zc := Zc). exact Ha.
-      + destruct Hside as [P | C]; [left; exact P | right; rewrite Forall_forall in C; apply C; exact Hv].
-      + exact Hok.
+    - rewrite E. apply in_map_iff in Hin. destruct Hin as [v [Ev Hv]]. rewrite <- Ev in *.
+      rewrite Forall_forall in Hl.
+      pose proof (alt_credit_unit S Zc a Ha) as Hc.
+      destruct rc.
+      + apply strict_wf. split; simpl; [apply scale_raw_unit; [apply Hl; exact Hv | exact Hc] | reflexivity].
+      + apply strict_wf. apply scale_raw_failing_strict.
+        * apply Hl. exact Hv.
+        * exact Hc.
+        * destruct Hside as [R | [P | C]]; [discriminate | left; exact P | right; rewrite Forall_forall in C; apply C; exact Hv].
+        * exact Hok.
   Qed.
 
   (* SumGrader: no scaling, so no side condition *)
-  Lemma sum_leaf_wf : forall f l, Forall cfn_unit l -> wf_ires S (sum_response f l).
+  Lemma sum_leaf_wf : forall rc f l, Forall cfn_unit l -> wf_ires S (sum_response rc f l).
   Proof.
-    intros f l Hl. unfold sum_response, wf_ires. simpl.
-    destruct (consolidate_cases (map standardize l) (mkEntry OkTrue 1 []) f) as [E | [Hin _]].
+    intros rc f l Hl. unfold sum_response, wf_ires. simpl.
+    destruct (consolidate_cases rc (map standardize l) (mkEntry OkTrue 1 []) f) as [E | [r [Hin [_ E]]]].
     - rewrite E. split; simpl; [lra | left; reflexivity].
-    - apply in_map_iff in Hin. destruct Hin as [v [Ev Hv]]. rewrite <- Ev.
-      rewrite Forall_forall in Hl. apply standardize_strict. apply Hl. exact Hv.
+    - rewrite E. apply in_map_iff in Hin. destruct Hin as [v [Ev Hv]]. rewrite <- Ev.
+      rewrite Forall_forall in Hl. destruct (standardize_strict S v (Hl v Hv)) as [[Hg Hk] Hw].
+      destruct rc; [apply strict_wf; split; simpl; [exact Hg | reflexivity] | exact Hw].
   Qed.
 
   Lemma matrix_err_wf : forall c k m r, matrix_err c k m = Ret r -> wf_ires S r.
@@ -293,11 +304,11 @@ Section Leaves.
     end.
   Definition lout_crisp (o : lout) : Prop := match o with LCfn l => Forall cfn_crisp l | _ => True end.
 
-  Lemma leaf_response_wf : forall k a o r,
-    alt_okp S Zc a -> lout_ok o -> (0 < alt_credit a \/ lout_crisp o) ->
-    leaf_response k (alt_credit a) (alt_msg a) (alt_ok a) o = Ret r -> wf_ires S r.
+  Lemma leaf_response_wf : forall rc k a o r,
+    alt_okp S Zc a -> lout_ok o -> (rc = true \/ 0 < alt_credit a \/ lout_crisp o) ->
+    leaf_response rc k (alt_credit a) (alt_msg a) (alt_ok a) o = Ret r -> wf_ires S r.
   Proof.
-    intros k a o r Ha Ho Hside H. destruct o; simpl in H; try discriminate.
+    intros rc k a o r Ha Ho Hside H. destruct o; simpl in H; try discriminate.
     - injection H as <-. exact Ho.
     - destruct k; try discriminate. injection H as <-. apply string_leaf_wf. exact Ha.
     - destruct k; try discriminate; injection H as <-; apply formula_leaf_wf; assumption.
